@@ -35,7 +35,7 @@ RULE = ("part A: packets enumerated over the bytes the classifier inspects - all
         "larger and random packets - x all 8 subsets of {RELAY, EXIT_BT, EXIT_IPV8}, outbound and inbound (16 evaluations per "
         "packet); distinct = distinct packet; non-trivial = allowed under at least one and forbidden under at least one flag set. "
         "opening grid: every (hop address, source address of the first cell) pair from the near-miss table, plus nested-DATA cases; "
-        "each pair is one distinct case and counts as non-trivial. part B: event histories on a real TunnelCommunity; distinct = "
+        "plus (hop address, address under which the Network already knows the creator's key) pairs; each pair is one distinct case and counts as non-trivial. part B: event histories on a real TunnelCommunity; distinct = "
         "distinct history; non-trivial = at least one emission or tunnelled reply AND at least one dropped packet")
 TRUSTED_BASE = [
     "tools/gen_exitpolicy.py part 1: AST translation of DataChecker.* and TunnelExitSocket.is_allowed (boolean/byte-string subset, lean/Ipv8/C06/Py.lean vocabulary)",
@@ -48,7 +48,7 @@ TRUSTED_BASE = [
 ASSUMPTIONS = [
     "cell decryption / circuit authentication happen before on_data (C04/C05); the model starts at on_data's arguments; on_data takes the circuit id from the decrypted payload and ignores the id of the cell it arrived in (as the code does)",
     "asyncio runs create_transports and resolution callbacks as scheduled; their interleaving with other events is an event order of the model",
-    "the exit-socket table and each socket's hop address are fixed during a history: socket creation (join_circuit), removal/close and address updates of the hop's Peer object are not events of the model",
+    "exit sockets come into being through join_circuit (event `join`, real code path with the creator's key unknown / known to the Network under the same or another address); socket removal/close and later address updates of the hop's Peer object are not events of the model",
     "cell handlers other than on_data that on_packet_from_circuit may re-dispatch to (create, extend, ping, ...) do not reach exit_data (checked syntactically: exit_data is referenced from on_data only) and are otherwise outside C06",
     "own circuits in the harness always have a hop (circuit.hop is never None)",
 ]
@@ -201,8 +201,11 @@ class Env:
             self.exit_ids = sorted(self.ov.exit_msg_ids)
         self.ov.on_raw_data = lambda circuit, origin, data: self.log.append(("loc", circuit.circuit_id, 2))
         self._peers = {}
+        self.added_peers = []
         from ipv8.messaging.anonymization.endpoint import TunnelEndpoint
         self.plain_ep = self.ov.endpoint
+        self.sent = []          # what the node sends on its tunnel socket (CREATED replies): recorded, never delivered
+        self.plain_ep.send = lambda addr, packet: self.sent.append((tuple(addr), len(packet)))
         self.tunnel_ep = TunnelEndpoint(self.plain_ep)
         self.cur_cid = None
         self.tunnel_ep.notify_listeners = lambda packet, from_tunnel=False: self.log.append(("loc", self.cur_cid, 1))
@@ -217,11 +220,22 @@ class Env:
     def set_flags(self, flags):
         self.ov.settings.peer_flags = set(flags)
 
-    def new_socket(self, cid, ip, port):
-        from ipv8.messaging.anonymization.exit_socket import TunnelExitSocket
-        es = TunnelExitSocket(cid, self.T.Hop(self.peer(ip, port), None), self.ov)
-        self.ov.exit_sockets[cid] = es
-        return es
+    def join(self, cid, ip, port, known=None):
+        """create the exit socket the way the code does: the REAL join_circuit for a CREATE that came from (ip, port).
+        `known`: addresses under which the creator's public key is already a verified peer of this node's Network
+        (None = unknown key).  Key material is random; it only serves as an identity and is never compared or recorded."""
+        from ipv8.messaging.anonymization.payload import CreatePayload
+        from ipv8.messaging.interfaces.udp.endpoint import UDPv4Address, UDPv6Address
+        from ipv8.peer import Peer
+        pk = self.ov.crypto.generate_key("curve25519").pub().key_to_bin()
+        for kip, kport in known or []:
+            kp = Peer(pk, (UDPv6Address if ":" in kip else UDPv4Address)(kip, kport))
+            self.node.network.add_verified_peer(kp)
+            self.added_peers.append(kp)
+        _, dh_first_part = self.ov.crypto.generate_diffie_secret()
+        src = (UDPv6Address if ":" in ip else UDPv4Address)(ip, port)
+        self.ov.join_circuit(CreatePayload(cid, 1, pk, dh_first_part), src)
+        return self.ov.exit_sockets.get(cid)
 
     def new_circuit(self, cid, ip, port, e2e):
         c = self.T.Circuit(cid, 1, self.T.CIRCUIT_TYPE_RP_DOWNLOADER if e2e else self.T.CIRCUIT_TYPE_DATA)
@@ -242,6 +256,11 @@ class Env:
             await es.close()
         self.ov.exit_sockets.clear()
         self.ov.circuits.clear()
+        self.ov.request_cache.clear()
+        for kp in self.added_peers:
+            self.node.network.remove_peer(kp)
+        self.added_peers.clear()
+        self.sent.clear()
         self.ov.endpoint = self.plain_ep
         for g in self.gates:
             if not g["fut"].done():
@@ -403,7 +422,7 @@ def gen_packets(ctx: Ctx, pfx: bytes, wide: bool):
 
 async def open_socket_for_gate(env: Env, cid=900):
     """open a socket through the real path: on_data from the hop's own address, then both transports"""
-    es = env.new_socket(cid, "10.9.9.9", 7000)
+    es = env.join(cid, "10.9.9.9", 7000)
     env.set_flags([env.F_BT, env.F_IPV8])
     env.ov.on_data(("10.9.9.9", 7000), data_packet(env.pfx, cid, ("4", "1.1.1.1", 53), b"d1:ae"), None)
     await env.drain()
@@ -610,6 +629,21 @@ def payload_pool(rng, pfx):
     return kind, rb(rng.randrange(0, 4))
 
 
+def draw_known(rng, ip, port):
+    """under which address(es) the Network already has the creator's public key as a verified peer"""
+    r = rng.random()
+    if r < 0.45:
+        return None
+    if r < 0.58:
+        return [[ip, port]]
+    if r < 0.63:
+        return [[ip, port + 1]]
+    if r < 0.75:
+        return [["fd00::77" if ":" not in ip else "10.7.7.7", port]]          # dual-stack peer known under its other family
+    cand = [a for _r, a in near_misses(ip) if not same_host(a, ip)] + FOREIGN_IPS
+    return [[rng.choice(cand), rng.choice([port, 1111])]]
+
+
 def gen_history(ctx: Ctx, env: Env, n_events: int):
     """returns a JSON-able description: setup + events; events are decided step by step in run_history (they depend on
     which transports / resolutions are pending), so this only draws the setup"""
@@ -618,8 +652,9 @@ def gen_history(ctx: Ctx, env: Env, n_events: int):
     nsock = rng.choice([1, 1, 2, 3])
     socks = []
     for i in range(nsock):
-        socks.append({"cid": rng.choice([7, 1000, 2 ** 31, 2 ** 32 - 10, 42]) + i * 3, "ip": rng.choice(HOP_IPS),
-                      "port": rng.choice([5000, 6000])})
+        ip, port = rng.choice(HOP_IPS), rng.choice([5000, 6000])
+        socks.append({"cid": rng.choice([7, 1000, 2 ** 31, 2 ** 32 - 10, 42]) + i * 3, "ip": ip, "port": port,
+                      "known": draw_known(rng, ip, port)})
     circs = []
     if rng.random() < 0.35:
         c = rng.choice([socks[0]["cid"], 555])
@@ -643,7 +678,14 @@ def draw_event(rng, env: Env, h, pend_gates, pend_dns, open_fams):
         choices += ["resolved"] * 8
     if open_fams:
         choices += ["outside"] * 5
+    if not burst:
+        choices += ["join"]
     k = rng.choice(choices)
+    if k == "join":
+        ip, port = rng.choice(HOP_IPS), rng.choice([5000, 6000])
+        used = {x["cid"] for x in socks} | {c["cid"] for c in h["circs"]}
+        cid = next(c for c in range(60017, 90000, 17) if c not in used)                # a circuit id not in use
+        return {"ev": "join", "cid": cid, "ip": ip, "port": port, "known": draw_known(rng, ip, port)}
     if k == "flags":
         return {"ev": "flags", "flags": [f for f in (env.F_RELAY, env.F_BT, env.F_IPV8, env.F_SPEED) if rng.random() < 0.5]}
     if k == "open":
@@ -689,7 +731,11 @@ def draw_event(rng, env: Env, h, pend_gates, pend_dns, open_fams):
         cid = c["cid"] if rng.random() < 0.8 else cid
         src = (c["ip"], rng.choice([c["port"], c["port"], 999]))
     else:
-        if rng.random() < 0.6:
+        kn = [k for k in (s.get("known") or []) if k[0] != s["ip"]]
+        if kn and rng.random() < 0.5:
+            # the address the Network knows for the creator's key, which is NOT where the CREATE came from
+            src = (kn[0][0], rng.choice([kn[0][1], s["port"]]))
+        elif rng.random() < 0.6:
             # near-miss of this socket's hop address (text prefix/suffix/substring, neighbouring value, other spelling)
             src = (rng.choice(near_misses(s["ip"]))[1], rng.choice([s["port"], s["port"], 1]))
         else:
@@ -732,20 +778,42 @@ async def run_history(ctx: Ctx, env: Env, h, fixed_events=None):
     env.set_flags(h["flags"])
     cur_flags = list(h["flags"])
     sockobj = {}
-    for s in h["socks"]:
-        sockobj[s["cid"]] = env.new_socket(s["cid"], s["ip"], s["port"])
     for c in h["circs"]:
         env.new_circuit(c["cid"], c["ip"], c["port"], c["e2e"])
-    hopip = {s["cid"]: s["ip"] for s in h["socks"]}
+    hopip = {}          # circuit id -> IP the CREATE for that circuit came from (NOT read back from the socket object)
+    initial = [dict(s) for s in h["socks"]]
+    h["socks"] = []     # sockets come into being through join events (below and, rarely, later in the history)
     env.ov.endpoint = env.tunnel_ep if h.get("tunnel_ep") else env.plain_ep
     lines = ["reset %s [%s] [%s] [%s] %d [%s]" % (
         hx(env.pfx), ",".join(map(str, h["flags"])),
-        ",".join(f"{s['cid']}:{hx(s['ip'].encode())}:{s['port']}" for s in h["socks"]),
+        "",
         ",".join(f"{c['cid']}:{hx(c['ip'].encode())}:{c['port']}:{1 if c['e2e'] else 0}" for c in h["circs"]),
         1 if h.get("tunnel_ep") else 0, ",".join(map(str, env.exit_ids)))]
     impl = ["ok"]
-    dns_of = {cid: [] for cid in sockobj}        # cid -> list of dns records in flight (model's `pending`)
-    requested = {cid: set() for cid in sockobj}  # cid -> (data, host, port) that some cell / resolution asked to be sent
+    dns_of = {}         # cid -> list of dns records in flight (model's `pending`)
+    requested = {}      # cid -> (data, host, port) that some cell / resolution asked to be sent
+
+    def do_join(s):
+        """the real join_circuit + the model's `join` line; returns (line, canonical implementation reply)"""
+        es = env.join(s["cid"], s["ip"], s["port"], s.get("known"))
+        h["socks"] = [x for x in h["socks"] if x["cid"] != s["cid"]] + [s]
+        hopip[s["cid"]] = s["ip"]
+        dns_of[s["cid"]], requested[s["cid"]] = [], set()
+        kn = s.get("known")
+        ctx.count("B:join:creator-key:" + ("unknown-to-network" if not kn else
+                                           "known-at-create-source" if tuple(kn[0]) == (s["ip"], s["port"]) else
+                                           "known-at-same-ip-other-port" if kn[0][0] == s["ip"] else
+                                           "known-at-other-family" if (":" in kn[0][0]) != (":" in s["ip"]) else
+                                           "known-at-other-ip"))
+        if es is None:
+            return f"join {hx(s['ip'].encode())} {s['port']} {s['cid']}", "- | nosock"
+        sockobj[s["cid"]] = es
+        return (f"join {hx(s['ip'].encode())} {s['port']} {s['cid']}",
+                "- | en=%d t4=%d t6=%d q=%d p=0" % (es.enabled, bool(es.transport_ipv4), bool(es.transport_ipv6), len(es.queue)))
+    for s0 in initial:
+        ln, rp = do_join(s0)
+        lines.append(ln)
+        impl.append(rp)
     events = []
     stats = {"emit": 0, "tunnel": 0, "dropped": 0}
     n = len(fixed_events) if fixed_events is not None else h["n"]
@@ -781,7 +849,9 @@ async def run_history(ctx: Ctx, env: Env, h, fixed_events=None):
             if cid in requested and dest[0] != "d":
                 requested[cid].add((p, dest[1], dest[2]))
             hop = hopip.get(cid)
+            kn_ips = [k[0] for x in h["socks"] if x["cid"] == cid for k in (x.get("known") or [])]
             rel = "hop-ip" if e["src"][0] == hop else "no-such-socket" if hop is None else \
+                "network-address-of-creator-key" if e["src"][0] in kn_ips else \
                 dict((t, r) for r, t in near_misses(hop)).get(e["src"][0], "foreign:unrelated")
             ctx.count("B:src:" + rel + (":enabled-before" if hop is not None and enabled_before.get(cid) else ""))
         elif e["ev"] == "open":
@@ -826,6 +896,10 @@ async def run_history(ctx: Ctx, env: Env, h, fixed_events=None):
             except Exception as ex:
                 env.log.append(("raised", type(ex).__name__))
             line = f"outside {cid} {e['fam']} {hx(e['host'].encode())} {e['port']} {hx(p)}"
+        elif e["ev"] == "join":
+            line, join_reply = do_join({"cid": cid, "ip": e["ip"], "port": e["port"], "known": e.get("known")})
+            enabled_before.setdefault(cid, False)
+            qlen_before.setdefault(cid, 0)
         else:
             raise InfraError(f"unknown event {e}")
         await env.drain()
@@ -853,20 +927,20 @@ async def run_history(ctx: Ctx, env: Env, h, fixed_events=None):
                     ctx.oracle_fail("TunnelExitSocket.sendto:forbidden-emission",
                                     f"event {i} ({e['ev']}): packet {data[:32].hex()} (BT-shaped={spec_bt(data)}, IPv8-shaped={spec_ipv8(data)}) "
                                     f"left through transport.sendto while peer_flags={cur_flags}",
-                                    {"part": "B", "history": {**h, "events": events}})
+                                    {"part": "B", "history": {**h, "socks": initial, "events": events}})
                 if tuple(addr[:2]) == NULL:
                     ctx.oracle_fail("TunnelExitSocket.sendto:null-destination",
                                     f"event {i} ({e['ev']}): transport.sendto towards 0.0.0.0:0",
-                                    {"part": "B", "history": {**h, "events": events}})
+                                    {"part": "B", "history": {**h, "socks": initial, "events": events}})
                 if owner in requested and (data, addr[0], addr[1]) not in requested[owner] \
                         and (data, addr[0], "anyport") not in requested[owner]:
                     ctx.oracle_fail("TunnelExitSocket.sendto:emission-to-unrequested-destination",
                                     f"event {i}: socket {owner} sent {data[:16].hex()} to {addr}, which no cell or resolution asked for",
-                                    {"part": "B", "history": {**h, "events": events}})
+                                    {"part": "B", "history": {**h, "socks": initial, "events": events}})
                 if owner not in sockobj or not sockobj[owner].enabled:
                     ctx.oracle_fail("TunnelExitSocket.sendto:emission-from-unopened-socket",
                                     f"event {i}: emission from a socket that was never enabled",
-                                    {"part": "B", "history": {**h, "events": events}})
+                                    {"part": "B", "history": {**h, "socks": initial, "events": events}})
             elif ent[0] == "tunnel":
                 stats["tunnel"] += 1
                 data = ent[5]
@@ -875,33 +949,33 @@ async def run_history(ctx: Ctx, env: Env, h, fixed_events=None):
                         or tuple(ent[3]) != NULL or tuple(ent[4][:2]) != (e.get("host"), e.get("port")):
                     ctx.oracle_fail("TunnelExitSocket.tunnel_data:wrong-circuit-or-target",
                                     f"event {i}: outside datagram for socket {cid} was sent back as send_data{ent[1:5]}",
-                                    {"part": "B", "history": {**h, "events": events}})
+                                    {"part": "B", "history": {**h, "socks": initial, "events": events}})
                 if not spec_allowed(exit_bt, exit_ipv8, env.pfx, data):
                     ctx.oracle_fail("TunnelExitSocket.datagram_received:forbidden-inbound",
                                     f"event {i}: outside datagram {data[:32].hex()} (BT-shaped={spec_bt(data)}, IPv8-shaped={spec_ipv8(data)}) "
                                     f"was sent back into the tunnel while peer_flags={cur_flags}",
-                                    {"part": "B", "history": {**h, "events": events}})
+                                    {"part": "B", "history": {**h, "socks": initial, "events": events}})
         for ent in new:
             if ent[0] == "handler" and ent[1] in env.circuit_cell_ids:
                 ctx.oracle_fail("TunnelCommunity.on_data:circuit-cell-handler-run-from-data-payload",
                                 f"event {i}: the payload of a DATA cell from {e.get('src')} was dispatched to the cell handler of message id "
                                 f"{ent[1]} with source address {tuple(ent[2])}, an address taken from the payload's org_address: no "
                                 f"datagram came from there (a pong / created / ... would be sent to it)",
-                                {"part": "B", "history": {**h, "events": events}})
+                                {"part": "B", "history": {**h, "socks": initial, "events": events}})
         if e["ev"] == "data":
             pl = bytes.fromhex(e["data"])
             if any(x[0] == "resolve" for x in new) and not spec_allowed(exit_bt, exit_ipv8, env.pfx, pl):
                 ctx.oracle_fail("TunnelExitSocket.sendto:dns-lookup-for-forbidden-packet",
                                 f"event {i}: a DNS lookup for {e['dest'][1]!r} was started for packet {pl[:16].hex()} "
                                 f"(BT-shaped={spec_bt(pl)}, IPv8-shaped={spec_ipv8(pl)}) while peer_flags={cur_flags}",
-                                {"part": "B", "history": {**h, "events": events}})
+                                {"part": "B", "history": {**h, "socks": initial, "events": events}})
             es0 = sockobj.get(cid)
             if es0 is not None and not enabled_before[cid] and not es0.enabled and \
                     ([x for x in new if x[0] not in ("loc", "handler")] or len(es0.queue) != qlen_before[cid]):
                 ctx.oracle_fail("TunnelCommunity.exit_data:closed-socket-accepted-data",
                                 f"event {i}: cell from {e['src']} did not open socket {cid} (hop {hopip.get(cid)}) but was queued / "
                                 f"caused {[x[0] for x in new]}",
-                                {"part": "B", "history": {**h, "events": events}})
+                                {"part": "B", "history": {**h, "socks": initial, "events": events}})
         opened = [c for c, es in sockobj.items() if es.enabled and not enabled_before[c]]
         opened += [g["owner"] for g in env.gates[n_gates:] if g["fam"] == 4]
         for c in set(opened):
@@ -911,7 +985,7 @@ async def run_history(ctx: Ctx, env: Env, h, fixed_events=None):
             if not ok:
                 ctx.oracle_fail("TunnelCommunity.exit_data:socket-opened-by-foreign-ip",
                                 f"event {i} ({e['ev']} from {e.get('src')}): exit socket {c} (previous hop {hopip.get(c)}) started opening its outside transports",
-                                {"part": "B", "history": {**h, "events": events}})
+                                {"part": "B", "history": {**h, "socks": initial, "events": events}})
             ctx.count("B:socket-opened")
         if not new and e["ev"] in ("data", "outside"):
             stats["dropped"] += 1
@@ -961,6 +1035,11 @@ async def run_history(ctx: Ctx, env: Env, h, fixed_events=None):
         # ---- canonical reply, same shape as the driver's ----
         if e["ev"] == "flags":
             rep = "ok"
+        elif e["ev"] == "join":
+            rep = join_reply
+            if sockobj.get(cid) is not None and (sockobj[cid].enabled or sockobj[cid].transport_ipv4):
+                ctx.oracle_fail("TunnelCommunity.join_circuit:socket-born-open", f"event {i}: exit socket {cid} is open right after the CREATE",
+                                {"part": "B", "history": {**h, "socks": initial, "events": events}})
         else:
             outs = ";".join(canon(x) for x in new) or "-"
             es = sockobj.get(cid)
@@ -974,6 +1053,7 @@ async def run_history(ctx: Ctx, env: Env, h, fixed_events=None):
         lines.append(line)
         impl.append(rep)
     h["events"] = events
+    h["socks"] = initial
     return lines, impl, stats
 
 
@@ -1025,6 +1105,22 @@ def run_opening_grid(ctx: Ctx, env: Env, use_model: bool):
             ctx.count("G:first-cell-from:" + rel)
             ctx.count("G:emissions", stats["emit"])
             ctx.case(("G", hop, ip, port), nontrivial=True, n=len(lines) - 1)
+            all_lines += lines
+            all_impl += impl
+            owners += [h] * len(lines)
+    # the creator's key is already a verified peer of the Network under some address; the CREATE comes from `hop`
+    for hop in HOP_IPS[:4]:
+        for cls, known in (("same", [[hop, 5000]]), ("other-ip", [[FOREIGN_IPS[0], 5000]]), ("other-port", [[hop, 7]]),
+                           ("other-family", [["fd00::77" if ":" not in hop else "10.7.7.7", 5000]]),
+                           ("near-miss", [[near_misses(hop)[0][1], 5000]])):
+            h = {"flags": [env.F_RELAY, env.F_BT], "socks": [{"cid": 77, "ip": hop, "port": 5000, "known": known}], "circs": [],
+                 "tunnel_ep": False, "style": "grid", "n": 5, "events": []}
+            cell = lambda ip: {"ev": "data", "src": [ip, 5000], "cid": 77, "dest": ["4", "93.184.216.34", 6881],  # noqa: E731
+                               "data": payload.hex(), "pkind": "dht"}
+            evs = [cell(known[0][0]), cell(hop), {"ev": "open", "cid": 77, "fam": 4}, {"ev": "open", "cid": 77, "fam": 6}]
+            lines, impl, stats = env.loop.run_until_complete(run_history(ctx, env, h, fixed_events=evs))
+            ctx.count("G:creator-key-known-to-network:" + cls)
+            ctx.case(("G", "known", hop, cls), nontrivial=True, n=len(lines) - 1)
             all_lines += lines
             all_impl += impl
             owners += [h] * len(lines)
